@@ -156,7 +156,7 @@ func isNowCall(v ssa.Value) bool {
 		return c.Call.Method.Name() == "Now"
 	}
 	f := c.Call.StaticCallee()
-	return f != nil && (f.String() == "time.Now" || (f.Name() == "Now" && f.Signature.Recv() != nil))
+	return f != nil && (f.String() == "time.Now" || (world.BaseName(f) == "Now" && f.Signature.Recv() != nil))
 }
 
 // isNowValue: a clock reading, or a time.Time parameter standing for one (FilterExpiredKeys(now, ...)).
